@@ -1,6 +1,6 @@
 (* Props/C03.v — property theorems only. *)
 From Coq Require Import Arith Sorted.
-From YQ Require Import Base.Str Model.Node Model.Store Model.Eval Spec.Lens Proofs.DeleteProofs.
+From YQ Require Import Base.Str Model.Node Model.Store Model.Eval Spec.Lens Proofs.DeleteProofs Proofs.AssignPathProofs Proofs.DeletePathProofs.
 
 (* Deleting a sequence element removes exactly that element: all others keep
    value and relative order ... *)
@@ -56,6 +56,28 @@ Theorem C03_del_union_commutes : forall (A : Type) (p1 p2 : list nat) (l : list 
   keep_not_in (p1 ++ p2) l O = keep_not_in (p2 ++ p1) l O.
 Proof. intros A. exact (@keep_not_in_comm A). Qed.
 Print Assumptions C03_del_union_commutes.
+
+(* Through the evaluator: `del(p)` for any existing simple path p (keys and index literals mixed, any length)
+   -- selection evaluated read-only, victims de-duplicated, deleteChildOperator's loop -- leaves the document with
+   exactly the named child removed from its parent container ([removed_child]: remove_item / remove_entries,
+   characterised above) and every position outside that container untouched ([upd_at]). *)
+Theorem C03_del_path_exact : forall p doc f pos,
+  p <> [] -> Forall step_ok p -> (length p + 2 <= f)%nat ->
+  resolvep p doc = Some pos ->
+  exists par par' st',
+    get_at doc (removelast pos) = Some par /\ removed_child par (last pos O) = Some par' /\
+    eval (S f) (EDel (pe p)) false [] [(O, [])] (init_store doc) = Ok ([(O, [])], st') /\
+    deref st' (O, []) = Some (upd_at doc (removelast pos) (fun _ => par')).
+Proof. exact del_path_exact. Qed.
+Print Assumptions C03_del_path_exact.
+
+Example C03_del_path_example :
+  let doc := Map [([97], Seq [(RIdx 0, Scalar TInt [48]); (RIdx 1, Map [([98], Scalar TInt [49]); ([99], Scalar TInt [50])])])] in
+  let p := [EK [97]; EI [49] 1; EK [98]] in
+  Forall step_ok p /\ resolvep p doc = Some [0; 1; 0]%nat /\
+  run (EDel (pe p)) doc
+  = tag_ok ++ ser_node (Map [([97], Seq [(RIdx 0, Scalar TInt [48]); (RIdx 1, Map [([99], Scalar TInt [50])])])]) ++ [10].
+Proof. exact del_path_example. Qed.
 
 (* non-vacuity and the formerly failing witnesses (now repaired in /repo and in the model):
    delete on a re-ordered container removes the selected element, and a node selected twice is deleted once *)
